@@ -471,6 +471,10 @@ def run(rep, tier):
     u, um = us[tp.TP_C], us[tp.MSG_C]
     n = pairing(rep, us)
     rep.floor("field resources", n, 4)
+    # the self-join guard (EDEADLK) asks tpt_get_current(): an OS thread that has left the pool must not keep a pool identity,
+    # or every later tp_shutdown_wait()/tp_destroy() from it is refused and the pool is never released (rule shared with C05)
+    from props import c05
+    rep.floor("TLS identity stores", c05.tls_identity(rep, u), 1)
     a = local_error_paths(rep, u, "tp_create", "calloc", "tp", {"tp_destroy", "free"})
     b = local_error_paths(rep, um, "tpt_msg_queue_create", "calloc", "msg_queue", {"free", "tpt_msg_queue_destroy"})
     rep.floor("tp_create paths", a, 4)
